@@ -4,15 +4,15 @@ use crate::{EncodeMode, MFType};
 
 // C18-C / C03-B: .lzma writer with a declared size: header layout (LZMA_Alone: props, dict LE32, size LE64 or all-ones),
 // writes beyond the declared size are refused before anything is encoded, finishing short is refused.
-//@ {"name":"c18c_lzma_expected_size","props":["C18","C03","C19"],"obligation":"C18-C","timeout":1500,"mem_gb":9,"functions":["enc::lzma_writer::LZMAWriter::new","enc::lzma_writer::LZMAWriter::write","enc::lzma_writer::LZMAWriter::finish","lz::lz_encoder::LZEncoderData::fill_window","enc::encoder::LZMAEncoder::encode_for_lzma1"],"bounds":"lc 0..=1, lp 0, pb 0..=2, dict_size 4096..=65536 (symbolic); expected size None or any u64; two write calls of 0..=3 bytes each (symbolic lengths); Fast/HC4; unwind 14","assumes":["writes are shorter than the encoder's look-ahead, so no symbol is coded before finish (the coding loop itself is outside this harness)","successful finish path cut (kani::assume) - it would run the real encoder"]}
+//@ {"name":"c18c_lzma_expected_size","props":["C18","C03","C19"],"obligation":"C18-C","timeout":1500,"mem_gb":9,"functions":["enc::lzma_writer::LZMAWriter::new","enc::lzma_writer::LZMAWriter::write","enc::lzma_writer::LZMAWriter::finish","lz::lz_encoder::LZEncoderData::fill_window","enc::encoder::LZMAEncoder::encode_for_lzma1"],"bounds":"lc=1, lp=0, pb=2, dict_size 4096 (concrete); expected size None or any u64; two write calls of 0..=3 bytes each (symbolic lengths); Fast/HC4; unwind 14","assumes":["writes are shorter than the encoder's look-ahead, so no symbol is coded before finish (the coding loop itself is outside this harness)","successful finish path cut (kani::assume) - it would run the real encoder"]}
 #[kani::proof]
 #[kani::unwind(14)]
 #[kani::stub(crate::enc::encoder::LZMAEncoder::new, crate::enc::encoder::verif_stubs_enc::verif_cheap_encoder)]
 fn c18c_lzma_expected_size() {
-    let (lc, pb): (u32, u32) = (kani::any(), kani::any());
-    kani::assume(lc <= 1 && pb <= 2);
-    let dict: u32 = kani::any();
-    kani::assume(dict >= 4096 && dict <= 65536);
+    // options concrete: a symbolic dictionary size makes the window buffer a symbolic-size object and every copy into
+    // it a whole-array update (measured: > 20 min, 9 GB); the header arithmetic for all values is in c03b below
+    let (lc, pb): (u32, u32) = (1, 2);
+    let dict: u32 = 4096;
     let o = LZMAOptions::new(dict, lc, 0, pb, EncodeMode::Fast, 32, MFType::HC4, 4);
     let has_exp: bool = kani::any();
     let exp: u64 = kani::any();
